@@ -1,6 +1,14 @@
 mod corpus;
 mod engine;
+#[allow(dead_code)]
+mod fam;
+#[allow(dead_code)]
+mod pc;
+#[allow(dead_code)]
+mod lang;
 mod props;
+#[allow(dead_code)]
+mod run;
 
 use engine::*;
 
@@ -13,6 +21,28 @@ fn main() {
     let args: Vec<String> = std::env::args().collect();
     if args.len() < 3 {
         usage();
+    }
+    if args[1] == "run" {
+        // mmv run <vm|wasm|both> <src-or-file> <n> [sched]   (ad-hoc debugging aid)
+        let src = if std::path::Path::new(&args[3]).exists() { std::fs::read_to_string(&args[3]).unwrap() } else { args[3].clone() };
+        let n: usize = args.get(4).and_then(|s| s.parse().ok()).unwrap_or(8);
+        let sched = args.get(5).map(|s| s == "sched").unwrap_or(false);
+        for b in [run::Backend::Vm, run::Backend::Wasm] {
+            if args[2] != "both" && args[2] != b.name() {
+                continue;
+            }
+            let r = run::full_run(b, &src, sched, n, &|t| vec![t as f64, 1.0], true);
+            match r {
+                Ok(fr) => {
+                    println!("{} io={:?}", b.name(), fr.io);
+                    for (t, o) in fr.out.iter().enumerate() {
+                        println!("  t={t} out={o:?} state={:?} cur={}", fr.states[t].iter().map(|w| f64::from_bits(*w)).collect::<Vec<_>>(), fr.cursors[t]);
+                    }
+                }
+                Err(e) => println!("{} ERR {e:?}", b.name()),
+            }
+        }
+        return;
     }
     let Some(prop) = props::lookup(&args[2]) else {
         eprintln!("no check for property {}", args[2]);
